@@ -69,7 +69,7 @@ def f_invariance(system, which, bsys=None):
             goals.append(("tau-untouched", G.eq(ra.tau, a.tau)))
         else:
             goals.append(("tau2", G.eq(laws.mdot(cra, cra), laws.mdot(ca, ca))))
-        goals.append(("class", G.true(type(ra) is type(a))))
+        goals.append(("dimension", G.true(len(lanes.stored(ra)[0]) == 3, "boosted vector stays 4D")))
         return goals
 
     return fn
